@@ -35,7 +35,7 @@ Definition OInv (P : nat -> N -> Prop) (o : ost) : Prop :=
 
 Lemma do_op_inv P o p : OInv P o -> OInv P (do_op o p).
 Proof.
-  intros (Hwf & Hlog & Hs). destruct p as [| | |v0]; cbn [do_op].
+  intros (Hwf & Hlog & Hs). destruct p as [| | |v0|]; cbn [do_op]; [| | | |exact (conj Hwf (conj Hlog Hs))].
   - (* broadcast *)
     split; [|split]; cbn [ob og od on ol osamp].
     + apply bcast_wf.
@@ -78,7 +78,7 @@ Definition OMono (o o' : ost) : Prop :=
 
 Lemma do_op_mono o p : bc_wf (ob o) -> OMono o (do_op o p).
 Proof.
-  intros Hwf. destruct p as [| | |v0]; cbn [do_op]; unfold OMono.
+  intros Hwf. destruct p as [| | |v0|]; cbn [do_op]; unfold OMono; [| | | |repeat split; auto].
   - cbn [ob on ol]. split; [lia|]. split; [auto|]. split; [intros c Hc; now apply closed_mono_bcast | intros _; apply bcast_wf].
   - pose proof (closed_mono_getch (ob o)) as Hcm. pose proof (getch_wf (ob o) Hwf) as Hwf2.
     destruct (getch (ob o)) as [b' c0] eqn:EG. cbn [fst] in *. cbn [ob on ol].
@@ -169,8 +169,8 @@ Proof.
     assert (H0 : OInv P o0).
     { split; [exact Hwf|]. split; [exact Hlog|]. cbn [ob og od on ol osamp].
       intros c v [(k & y & _ & Hk & Hy)|Hy]; eauto. }
-    pose proof (run_ops_inv P ops o0 H0) as (Hwf' & Hlog' & Hs').
-    remember (run_ops o0 ops) as o eqn:Eo. clear Eo.
+    pose proof (run_ops_inv P (upto_panic ops) o0 H0) as (Hwf' & Hlog' & Hs').
+    remember (run_ops o0 (upto_panic ops)) as o eqn:Eo. clear Eo.
     split; [|split; [|split; [|split]]]; cbn [sb sg sdirty snb slog acts].
     + exact Hwf'.
     + exact Hlog'.
@@ -178,7 +178,8 @@ Proof.
       * cbn [samp] in Hy. apply Hs'. now right.
       * apply Hs'. left. exists k, y. auto.
     + intros k y Hk Hy. apply set_nth_lookup in Hk as [(-> & -> & _)|(Hne & Hk)].
-      * cbn [samp apc] in *. destruct hold; [destruct Hy; discriminate|]. unfold after_client in Hy.
+      * cbn [samp apc] in *. destruct hold; [destruct Hy; discriminate|]. unfold after_section, after_client in Hy.
+        destruct (panics ops); [destruct Hy; discriminate|].
         destruct block; [|destruct Hy; discriminate]. destruct (osamp o); [congruence | destruct Hy; discriminate].
       * eauto.
     + intros k y pk kk sl Hk Hy. apply set_nth_lookup in Hk as [(-> & -> & _)|(Hne & Hk)].
@@ -230,7 +231,8 @@ Proof.
     destruct (nth_error (acts s) a) as [x|] eqn:G; [|exact HI].
     destruct (apc x) eqn:Ep; try exact HI. destruct (ak x) as [ops hold block|pk kk sl] eqn:Ek; [|exact HI].
     eapply inv_upd; eauto; cbn [apc acanc].
-    + unfold after_client. destruct block; [|nowaits]. destruct (samp x); [discriminate | nowaits].
+    + unfold after_section, after_client. destruct (panics ops); [nowaits|].
+      destruct block; [|nowaits]. destruct (samp x); [discriminate | nowaits].
     + intros pk kk sl Hk. congruence.
   - (* exit gate *)
     destruct (nth_error (acts s) a) as [x|] eqn:G; [|exact HI].
@@ -286,7 +288,7 @@ Proof.
   destruct (apc x) eqn:Ep; try now apply mono_same.
   destruct (ak x) as [ops hold block|pk kk sl] eqn:Ek.
   - set (o0 := {| ob := sb s; og := sg s; od := sdirty s; on := snb s; ol := slog s; osamp := samp x |}).
-    destruct (run_ops_mono ops o0 Hwf) as (H1 & H2 & H3 & _).
+    destruct (run_ops_mono (upto_panic ops) o0 Hwf) as (H1 & H2 & H3 & _).
     unfold Mono. cbn [sb snb slog]. auto.
   - destruct (evalp pk kk (sg s)) as [| |e] eqn:Ev; try now apply mono_same.
     pose proof (closed_mono_getch (sb s)) as Hcm.
@@ -671,7 +673,7 @@ Proof. intros Hx Hk Hs. destruct (run_inv es) as (_ & _ & _ & _ & H). destruct (
 (* client discipline *)
 Definition DInv (s : st) : Prop :=
   sdirty s = false /\
-  forall a x ops h bl, nth_error (acts s) a = Some x -> ak x = KClient ops h bl -> ops_dirty false ops = false.
+  forall a x ops h bl, nth_error (acts s) a = Some x -> ak x = KClient ops h bl -> ops_dirty false (upto_panic ops) = false.
 
 Lemma do_sect_dirty s a : DInv s -> sdirty (do_sect s a) = false.
 Proof.
@@ -686,19 +688,19 @@ Qed.
 Lemma step_dinv s e : ev_disc e = true -> DInv s -> DInv (step s e).
 Proof.
   intros He HD. pose proof HD as (Hd & Hc).
-  assert (H2 : forall a x ops h bl, nth_error (acts (step s e)) a = Some x -> ak x = KClient ops h bl -> ops_dirty false ops = false).
+  assert (H2 : forall a x ops h bl, nth_error (acts (step s e)) a = Some x -> ak x = KClient ops h bl -> ops_dirty false (upto_panic ops) = false).
   { intros a x ops h bl Hx Hk. destruct (step_actor _ _ _ _ Hx) as [(x0 & Hx0 & Hak & _)|(_ & Hnew)].
     - rewrite Hk in Hak. eauto.
     - destruct e; cbn [new_actor] in Hnew; try contradiction.
       + destruct Hnew as (Hak & _). rewrite Hk in Hak. inversion Hak; subst.
-        cbn [ev_disc] in He. now destruct (ops_dirty false ops0).
+        cbn [ev_disc] in He. now destruct (ops_dirty false (upto_panic ops0)).
       + destruct Hnew as (Hak & _). congruence. }
   split; [|exact H2].
   destruct e as [mode ops hold block|pk kk pre sl|a|a|a|a|a|a]; cbn [step].
   - assert (HA : forall p, DInv (add_actor s {| ak := KClient ops hold block; apc := p; acanc := false; samp := None |})).
     { intros p. split; [exact Hd|]. intros a x ops1 h1 bl1 Hx Hk.
       apply add_actor_lookup in Hx as [Hx|(_ & ->)]; [eauto|].
-      cbn [ak] in Hk. inversion Hk; subst. cbn [ev_disc] in He. now destruct (ops_dirty false ops1). }
+      cbn [ak] in Hk. inversion Hk; subst. cbn [ev_disc] in He. now destruct (ops_dirty false (upto_panic ops1)). }
     destruct mode as [|[|mode]]; [exact Hd| |]; destruct (sheld s); try exact Hd; apply do_sect_dirty, HA.
   - destruct (N.leb 4 pk); [|destruct pre]; exact Hd.
   - destruct (sheld s); [exact Hd | now apply do_sect_dirty].
@@ -781,7 +783,8 @@ Proof. induction l; cbn; auto. Qed.
 
 Inductive hdec (s : st) : list N -> ev -> Prop :=
 | HD_client mode hold block ops h bl :
-    bit hold = Some h -> bit block = Some bl -> (N.ltb mode 3 && negb (N.eqb mode 2 && bl) = true) ->
+    bit hold = Some h -> bit block = Some bl ->
+    (N.ltb mode 3 && negb (N.eqb mode 2 && bl) && negb (N.eqb mode 2 && panics (map dec_op ops) && sheld s) = true) ->
     hdec s (1 :: mode :: hold :: block :: ops)%N (CallClient (N.to_nat mode) (map dec_op ops) h bl)
 | HD_wait pk k pre slow p sl :
     bit pre = Some p -> bit slow = Some sl -> N.ltb pk 6 = true -> hdec s [2; pk; k; pre; slow]%N (CallWait pk k p sl)
@@ -975,7 +978,8 @@ Lemma do_op_mon o p : bc_wf (ob o) -> logged_lt (ob o) (ol o) ->
   bc_wf (ob (do_op o p)) /\ logged_lt (ob (do_op o p)) (ol (do_op o p)) /\
   (exists ex, ol (do_op o p) = ol o ++ ex).
 Proof.
-  intros Hwf Hlt. destruct p as [| | |v0]; cbn [do_op mon_op fst snd].
+  intros Hwf Hlt. destruct p as [| | |v0|]; cbn [do_op mon_op fst snd];
+    [| | | |split; [reflexivity|split; [exact Hwf|split; [exact Hlt|exists []; now rewrite app_nil_r]]]].
   - cbn [ob od ol]. split; [|split; [apply bcast_wf|split; [exact Hlt|exists []; now rewrite app_nil_r]]].
     f_equal. unfold cflags. rewrite map_map. apply map_ext_in. intros [c k] Hin. cbn [fst].
     symmetry. apply bcast_closes. eapply Hlt; eauto.
@@ -1004,14 +1008,14 @@ Qed.
 (* ---- what the main step does to the core, as the monitor's fold ---- *)
 Definition sect_ops (s : st) (a : nat) : list op :=
   match nth_error (acts s) a with
-  | Some x => match apc x, ak x with PGate, KClient ops _ _ => ops | _, _ => [] end
+  | Some x => match apc x, ak x with PGate, KClient ops _ _ => upto_panic ops | _, _ => [] end
   | None => []
   end.
 
 Definition ran_ops (s : st) (e0 : ev) : list op :=
   match e0 with
   | Sect a => if sheld s then [] else sect_ops s a
-  | CallClient mode ops _ _ => match mode with 0 => [] | _ => if sheld s then [] else ops end
+  | CallClient mode ops _ _ => match mode with 0 => [] | _ => if sheld s then [] else upto_panic ops end
   | _ => []
   end.
 
@@ -1032,7 +1036,7 @@ Proof.
   destruct (apc x) eqn:Ep; try now apply core_step_same.
   destruct (ak x) as [ops hold block|pk kk sl] eqn:Ek.
   - set (o0 := {| ob := sb s; og := sg s; od := sdirty s; on := snb s; ol := slog s; osamp := samp x |}).
-    destruct (run_ops_mon ops o0 Hwf Hlt) as (E & Hex). unfold core_step. cbn [sb sdirty slog]. exact (conj E Hex).
+    destruct (run_ops_mon (upto_panic ops) o0 Hwf Hlt) as (E & Hex). unfold core_step. cbn [sb sdirty slog]. exact (conj E Hex).
   - destruct (evalp pk kk (sg s)); try now apply core_step_same.
     pose proof (getch_closed_same (sb s)) as Hsame.
     destruct (getch (sb s)) as [b' c0] eqn:EG. cbn [fst] in *.
@@ -1044,12 +1048,12 @@ Lemma step_core s e0 : Inv s -> core_step s (step s e0) (ran_ops s e0).
 Proof.
   intros HI.
   destruct e0 as [mode ops hold block|pk kk pre sl|a|a|a|a|a|a]; cbn [step ran_ops].
-  - assert (HD : core_step s (do_sect (add_actor s {| ak := KClient ops hold block; apc := PGate; acanc := false; samp := None |}) (length (acts s))) ops).
+  - assert (HD : core_step s (do_sect (add_actor s {| ak := KClient ops hold block; apc := PGate; acanc := false; samp := None |}) (length (acts s))) (upto_panic ops)).
     { set (x0 := {| ak := KClient ops hold block; apc := PGate; acanc := false; samp := None |}).
       assert (HI0 : Inv (add_actor s x0)).
       { apply inv_add; auto; cbn [apc]; [intros [H|H]; discriminate H | discriminate]. }
       pose proof (do_sect_core (add_actor s x0) (length (acts s)) HI0) as HC.
-      assert (Eo : sect_ops (add_actor s x0) (length (acts s)) = ops).
+      assert (Eo : sect_ops (add_actor s x0) (length (acts s)) = upto_panic ops).
       { unfold sect_ops, add_actor. cbn [acts]. rewrite nth_error_app2 by lia. rewrite Nat.sub_diag. reflexivity. }
       rewrite Eo in HC. exact HC. }
     destruct mode as [|[|mode]]; [now apply core_step_same| |]; destruct (sheld s); try (now apply core_step_same); exact HD.
@@ -1182,14 +1186,14 @@ Qed.
 Lemma do_sect_new_client s ops hold block x1 :
   let x0 := {| ak := KClient ops hold block; apc := PGate; acanc := false; samp := None |} in
   nth_error (acts (do_sect (add_actor s x0) (length (acts s)))) (length (acts s)) = Some x1 ->
-  apc x1 = PHold \/ apc x1 = PRet 3 \/ apc x1 = PBlocked.
+  apc x1 = PHold \/ apc x1 = PRet 3 \/ apc x1 = PBlocked \/ apc x1 = PRet 13.
 Proof.
   intros x0 H. unfold do_sect in H.
   assert (G : nth_error (acts (add_actor s x0)) (length (acts s)) = Some x0).
   { unfold add_actor. cbn [acts]. rewrite nth_error_app2 by lia. now rewrite Nat.sub_diag. }
   rewrite G in H. cbn [apc ak x0] in H. cbn [acts] in H.
   rewrite nth_error_set_nth_same in H by (eapply nth_error_nth_len; eauto). inversion H. cbn [apc].
-  destruct hold; [auto|]. unfold after_client. destruct block; [|auto].
+  destruct hold; [auto|]. unfold after_section, after_client. destruct (panics ops); [auto|]. destruct block; [|auto].
   match goal with |- context [osamp ?o] => destruct (osamp o) end; auto.
 Qed.
 
@@ -1211,10 +1215,10 @@ Proof.
     assert (HH : forall p0, p0 = PRet 5 \/ p0 = PGate -> apc x1 = p0 -> (N.eqb (code_pc (apc x')) 5 || N.eqb (code_pc (apc x')) 1) = true).
     { intros p0 Hp0 E1. destruct Hmv as [->|(Hbk & _)]; [|destruct Hp0; congruence].
       rewrite E1. destruct Hp0; subst p0; reflexivity. }
-    assert (HN : apc x1 = PHold \/ apc x1 = PRet 3 \/ apc x1 = PBlocked -> ak x1 = KClient (map dec_op ops) h bl ->
+    assert (HN : apc x1 = PHold \/ apc x1 = PRet 3 \/ apc x1 = PBlocked \/ apc x1 = PRet 13 -> ak x1 = KClient (map dec_op ops) h bl ->
                  (N.eqb (code_pc (apc x')) 5 || N.eqb (code_pc (apc x')) 1) = false).
     { intros Hc Hk1. destruct Hmv as [->|(Hbk & Hm)].
-      - destruct Hc as [E|[E|E]]; rewrite E; reflexivity.
+      - destruct Hc as [E|[E|[E|E]]]; rewrite E; reflexivity.
       - rewrite Hk1 in Hm. rewrite Hm. reflexivity. }
     assert (HA : forall p0, nth_error (acts (add_actor s {| ak := KClient (map dec_op ops) h bl; apc := p0; acanc := false; samp := None |})) (length (acts s)) = Some x1 ->
                  apc x1 = p0).
@@ -1502,4 +1506,40 @@ Theorem model_run_check_clean evs :
   length (run_obs hstep init evs) = length evs -> run_check_bcast [] evs (run_obs hstep init evs) = [].
 Proof.
   intros Hl. unfold run_check_bcast, run_check. rewrite (replay_own evs init 0 Hl), model_satisfies_monitors. reflexivity.
+Qed.
+
+(* ------------------------------------------------------------------ *)
+(* a panicking callback: the section ends at the OPanic, the mutex is released (all three entry points unlock by defer),
+   the caller ends with the recovered panic (13); nothing after the OPanic is executed *)
+Lemma upto_panic_no_panic ops : panics (upto_panic ops) = false.
+Proof.
+  induction ops as [|p ops IH]; [reflexivity|]. cbn [upto_panic]. destruct (is_panic p) eqn:Ep; [reflexivity|].
+  unfold panics in *. cbn [existsb]. now rewrite Ep.
+Qed.
+
+Lemma upto_panic_app ops ops' : upto_panic (ops ++ OPanic :: ops') = upto_panic ops.
+Proof.
+  induction ops as [|p ops IH]; [reflexivity|]. cbn [app upto_panic]. destruct (is_panic p); [reflexivity|]. now rewrite IH.
+Qed.
+
+Lemma panicking_section_releases_lock s a x ops block :
+  nth_error (acts s) a = Some x -> ak x = KClient ops false block -> apc x = PGate -> sheld s = false -> panics ops = true ->
+  let s' := step s (Sect a) in
+  sheld s' = false /\ (exists x', nth_error (acts s') a = Some x' /\ apc x' = PRet 13 /\ ak x' = ak x) /\
+  sg s' = og (run_ops {| ob := sb s; og := sg s; od := sdirty s; on := snb s; ol := slog s; osamp := samp x |} (upto_panic ops)).
+Proof.
+  intros G Hk Hp Hh Hpan. cbn [step]. rewrite Hh. unfold do_sect. rewrite G, Hp, Hk. cbn [sheld acts sg].
+  split; [reflexivity|]. split; [|reflexivity].
+  eexists. split; [apply nth_error_set_nth_same; eapply nth_error_nth_len; eauto|].
+  cbn [apc ak]. unfold after_section. rewrite Hpan. split; reflexivity.
+Qed.
+
+Lemma panicking_holder_releases_lock s a x ops block :
+  nth_error (acts s) a = Some x -> ak x = KClient ops true block -> apc x = PHold -> panics ops = true ->
+  let s' := step s (Resume a) in
+  sheld s' = false /\ exists x', nth_error (acts s') a = Some x' /\ apc x' = PRet 13.
+Proof.
+  intros G Hk Hp Hpan. cbn [step]. rewrite G, Hp, Hk. unfold upd_actor. cbn [sheld acts].
+  split; [reflexivity|]. eexists. split; [apply nth_error_set_nth_same; eapply nth_error_nth_len; eauto|].
+  cbn [apc]. unfold after_section. now rewrite Hpan.
 Qed.
